@@ -300,6 +300,8 @@ def run(ctx, model):
     # the re-upload thresholds changed after construction, through the caller's configuration object
     import c08_cli
     c08_cli.config_object_equivalence(ctx, cov, ctx.pick(16, 80), must_change=["reupload_max_uploads_ago", "reupload_max_bytes_ago"])
+    # several images (and the same image again) on one command line: the command line transmits what the library calls transmit
+    c08_cli.cli_equivalence(ctx, cov, ctx.pick(24, 80), env_rate=0.8)
     return cov
 
 
